@@ -119,17 +119,17 @@ def propCfg (c : Case) (n : Nat) (ref : Run) (p : String) (cf : Conf) (r : Run) 
 
 /-! ### Corr: replay through the model -/
 
-def growTo (fx : Fixes) (w : Words) (t : MemType) (target : Int) : Nat → St → Except String St
+def growTo (fx : Fixes) (w : Words) (fail : Nat → Bool) (t : MemType) (target : Int) : Nat → St → Except String St
   | 0, _ => .error "more than 64 expansions in one step"
   | f+1, s =>
     if s.cap t = target then .ok s
     else if s.cap t > target then .error s!"model length {s.cap t} passed the implementation's {target}"
-    else match memXpand fx w (fun _ => false) t s with
-      | (s1, 0) => growTo fx w t target f s1
+    else match memXpand fx w fail t s with
+      | (s1, 0) => growTo fx w fail t target f s1
       | (_, e) => .error s!"model expansion fails (info {e}) where the implementation went on to length {target}"
 
-def growNeed (fx : Fixes) (w : Words) (t : MemType) (need : Int) (s : St) : Except String St :=
-  match growUntil fx w (fun _ => false) t need 64 s with
+def growNeed (fx : Fixes) (w : Words) (fail : Nat → Bool) (t : MemType) (need : Int) (s : St) : Except String St :=
+  match growUntil fx w fail t need 64 s with
   | none => .error "model: growth loop does not terminate (expand succeeds without growing)"
   | some (s1, 0) => .ok s1
   | some (_, e) => .error s!"model expansion fails (info {e}) where the implementation went on"
@@ -137,7 +137,8 @@ def growNeed (fx : Fixes) (w : Words) (t : MemType) (need : Int) (s : St) : Exce
 def replay (fx : Fixes) (c : Case) (p : String) (cf : Conf) (r : Run) (n : Nat) : Except String Unit := do
   let w := wordsOf c
   let mc := cfgOf c cf
-  let ini := memInit fx (fun _ => false) mc
+  let fail : Nat → Bool := fun k => cf.fault > 0 && Int.ofNat (k + 1) == cf.fault
+  let ini := memInit fx fail mc
   if ini.spin then
     if r.hang then return () else throw "model: LUMemInit does not terminate"
   if ini.info ≠ 0 then
@@ -154,18 +155,18 @@ def replay (fx : Fixes) (c : Case) (p : String) (cf : Conf) (r : Run) (n : Nat) 
     let g (i : Nat) : Int := tr.getD (8*e+i) 0
     let j := (g 0).toNat
     -- LSUB: whatever the symbolic phase asked for
-    s ← (growTo fx w .LSUB (g 3) 64 s).mapError (s!"col {j} LSUB: " ++ ·)
+    s ← (growTo fx w fail .LSUB (g 3) 64 s).mapError (s!"col {j} LSUB: " ++ ·)
     -- LUSUP: the column's own request, or the whole relaxed supernode's
     let r1 := xlusup.getD (j+1) 0
     let r2 := xlusup.getD (xsup.getD ((supno.getD j 0).toNat + 1) 0).toNat 0
-    let s1 ← (growNeed fx w .LUSUP r1 s).mapError (s!"col {j} LUSUP: " ++ ·)
+    let s1 ← (growNeed fx w fail .LUSUP r1 s).mapError (s!"col {j} LUSUP: " ++ ·)
     if s1.capL = g 1 then s := s1
     else
-      let s2 ← (growNeed fx w .LUSUP r2 s1).mapError (s!"col {j} LUSUP(snode): " ++ ·)
+      let s2 ← (growNeed fx w fail .LUSUP r2 s1).mapError (s!"col {j} LUSUP(snode): " ++ ·)
       if s2.capL = g 1 then s := s2
       else throw s!"col {j}: nzlumax model {s1.capL} (column) / {s2.capL} (supernode), implementation {g 1}"
     -- UCOL + USUB
-    s ← (growNeed fx w .UCOL (xusub.getD (j+1) 0) s).mapError (s!"col {j} UCOL: " ++ ·)
+    s ← (growNeed fx w fail .UCOL (xusub.getD (j+1) 0) s).mapError (s!"col {j} UCOL: " ++ ·)
     if s.capU ≠ g 2 then throw s!"col {j}: nzumax model {s.capU} implementation {g 2}"
     if s.nexp ≠ g 4 then throw s!"col {j}: num_expansions model {s.nexp} implementation {g 4}"
     if cf.mode ≠ 0 ∧ (s.used, s.top1, s.top2) ≠ (g 5, g 6, g 7) then
@@ -174,6 +175,27 @@ def replay (fx : Fixes) (c : Case) (p : String) (cf : Conf) (r : Run) (n : Nat) 
     -- shortage during the factorization: the reported byte count is that of the current lengths
     let want := memoryUsage w r.nzl r.nzu r.nzlu n + n
     if r.info ≠ want then throw s!"info={r.info} but memory_usage of the current lengths + n = {want}"
+    if (s.capL, s.capU) ≠ (r.nzlu, r.nzu) ∧ nev = 0 then pure () -- lengths at entry are not observable before the first column
+    -- the model must be able to fail in the next column: after some number of LSUB expansions, either
+    -- one of them, or the column's LUSUP / UCOL request, is refused
+    let j := nev
+    let r1 := xlusup.getD (j+1) 0
+    let r2 := xlusup.getD (xsup.getD ((supno.getD j 0).toNat + 1) 0).toNat 0
+    let need := xusub.getD (j+1) 0
+    let mut cur := s
+    let mut canFail := false
+    for _ in [0:24] do
+      if canFail then break
+      let refusesLU (rq : Int) : Bool := match growNeed fx w fail .LUSUP rq cur with
+        | .error _ => true
+        | .ok s1 => match growNeed fx w fail .UCOL need s1 with
+          | .error _ => true
+          | .ok _ => false
+      if refusesLU r1 ∨ refusesLU r2 then canFail := true
+      else match memXpand fx w fail .LSUB cur with
+        | (s1, 0) => cur := s1
+        | (_, _) => canFail := true
+    if ¬ canFail then throw s!"implementation reports a shortage in column {j} (info={r.info}) but the model can carry on"
     return ()
   s := workFree s
   if (s.capL, s.capU, s.capS) ≠ (r.nzlu, r.nzu, r.nzl) then
